@@ -395,6 +395,62 @@ def _enum_forms(ctx, f, chars):
     return {'ok': True, 'why': 'iterative form'}
 
 
+def _enum_evaluated(ctx, res, cls, f, radix):
+    """_name_for_id evaluated (concrete ids) over the first ids and around the
+    digit-count boundaries: two ids with one name are a witness whatever form
+    the expansion is written in.  (No collision among these ids proves nothing
+    about all ids: that is what the form rule is for.)  -> True when a
+    collision was reported"""
+    from ..absint import cx as CX
+    ids = list(range(0, 2 * radix * radix + 2 * radix + 4))
+    edge = radix + radix ** 2 + radix ** 3
+    ids += list(range(max(edge - 3, ids[-1] + 1), edge + 4))
+    ids += [radix ** 3 - 1, radix ** 3, radix ** 3 + 1, radix ** 4, 2 ** 31 - 1]
+    ids = sorted(set(ids))
+    cxi = CX.Cx(ctx.model, ctx.consts)
+    fmt = CX.ClassVal(cls)
+    seen = {}
+    clash = None
+    n = 0
+    try:
+        fn = cxi.getattr(fmt, f.name)
+        for i in ids:
+            v = cxi.call(fn, [i], {})
+            if isinstance(v, CX.Seq):
+                if any(CX.is_sym(x) for x in v.items):
+                    raise CX.CxError('symbolic name')
+                v = bytes(v.items)
+            if not isinstance(v, (bytes, bytearray)):
+                raise CX.CxError('name of id {} is {}'.format(
+                    i, type(v).__name__))
+            v = bytes(v)
+            n += 1
+            if v in seen and clash is None:
+                clash = (seen[v], i, v)
+            seen.setdefault(v, i)
+            if not v and clash is None:
+                clash = (i, i, v)
+    except (AnalysisError, CX.CxError, CX.PyRaise) as e:
+        res.info('R-C02-enum', f.qual, 'expansion evaluated',
+                 'not followed: ' + str(e)[:100], f.loc)
+        return False
+    if clash is not None:
+        res.violation('R-C02-enum', f.qual,
+                      'distinct ids expand to distinct, non-empty names '
+                      '(evaluated)',
+                      'ids {} and {} both expand to {!r}: two different '
+                      'identifiers are renamed to the same short name'.format(
+                          clash[0], clash[1], clash[2]), f.loc,
+                      semantic=True)
+        return True
+    res.holds('R-C02-enum', f.qual,
+              'distinct ids expand to distinct, non-empty names (evaluated)',
+              '{} ids evaluated (0..{}, and around the 3/4-letter '
+              'boundary): no two share a name'.format(
+                  n, 2 * radix * radix + 2 * radix + 3), f.loc)
+    return False
+
+
 def rule_enum(ctx, res):
     model, ev = ctx.model, ctx.consts
     cls = model.cls(FACTORY)
@@ -405,8 +461,11 @@ def rule_enum(ctx, res):
         res.undecided('R-C02-enum', q, 'alphabet', 'NAME_CHARS not constant')
         return
     radix = len(chars)
+    witness = _enum_evaluated(ctx, res, cls, f, radix)
     r = _enum_forms(ctx, f, chars)
-    if r is None:
+    if witness:
+        pass                    # reported with the colliding ids
+    elif r is None:
         res.undecided('R-C02-enum', q, 'positional expansion',
                       'neither the recursive nor the iterative form of a '
                       'base-{} expansion was recognised'.format(radix), f.loc)
